@@ -11,8 +11,14 @@
       tag       a rejection names a constraint family the instance really violates and carries its RFC 7950 error-app-tag
       mutation  an instance mutated in exactly one named way is rejected for that reason; a valid-by-construction one is accepted
       order     any sibling order of the input gives the same reply (verdict, error, resulting tree)
+      multi-set under LYD_VALIDATE_MULTI_ERROR the set of reported error families equals the set of violated families whenever no
+                choice has data of two cases (theorem multi_error_set_exact; with two cases only the first is validated)
       routes    built + validated, parsed with validation from XML and from JSON, parsed then validated separately: same
                 verdict, same first error (kind, app-tag), same resulting tree; also with the document's siblings shuffled
+      compiler-guarantee  the schema hypotheses of the theorems (`FullSane`: nothing mandatory directly in a default case nor below
+                non-presence containers there, no default next to mandatory / min-elements, config false inherited, min <= max, distinct
+                names of cases and of sibling data nodes) are what lys_compile refuses: one tiny module per point
+                (validgen.compiler_guarantee_schemas) must be refused, the positive controls must compile
       ops       the same data definitions as rpc input / reply output / notification content (lyd_parse_op + lyd_validate_op, XML and
                 JSON): accepted  <=>  the specification holds on the all-state variant of the schema.  The variant is computed by the
                 model (`Valid.stateVariant`, LyModel/Valid/Ops.lean; theorems `ops_relaxes`, `ops_exact_difference`, `stateVariant_*`,
@@ -21,20 +27,29 @@
                 three facts read from the C source by tools/extractors/ops.py (Generated/OpsFacts.lean: config ignored inside
                 operations, leaf-lists without LYS_CONFIG_W may repeat, lyd_validate_new on the output siblings of a reply) and is
                 compared per route; theorem `opsValidate_current` (model = validate on the variant) builds only while the facts hold.
-Generators: random S1x schemas (validgen), instances valid by construction, one named mutation each.
+Generators: random S1x schemas (validgen), instances valid by construction, one named mutation each; directed families
+(validgen.FAMILIES), one small template per construct of the full schema language the theorems validate_ok_iff_valid /
+validate_error_tag speak about: nested choice with a default case in a non-presence container in a list entry, mandatory choice in a
+case, default case holding a nested choice with leaf / leaf-list defaults, chains of non-presence containers above a mandatory leaf /
+min-elements / mandatory choice (below a presence container, a list entry, a case), min/max-elements of lists and leaf-lists in a
+case, `unique` with targets in non-presence / presence containers and in cases, with defaults (instances with exactly 2 entries: the
+direct comparison of lyd_validate_unique; 3 and more: its hash tables; equal, different and incomplete tuples), and plain schemas (the
+class of the first theorem).  Mutants that emptied a non-presence container also run without that container.  Every run prints (and
+records in the evidence `rule`) how many schemas contain each construct and how many cases fall into the class of each theorem.
 """
 import collections, json, os
-from vlib import treegen as tg
+from vlib import treegen as tg, paths
 from checks import validgen as vg
 from checks import validcomp as vc
 from checks.validcomp import COMP, NO_STATE, PRESENT, MULTI, OPER
 
-LEAN_TARGETS = ["LyModel.Props.C02"]
+LEAN_TARGETS = ["LyModel.Props.C02", "LyModel.Props.C02Full"]
 AUDIT = "Audit/C02.lean"
 GENERATED = ["ValidConsts", "OpsFacts"]
 HARNESS = "api_val"
 ASSUMPTIONS = [
-    "schemas from family S1x (S1 of the tree base + unique, nested choices, mandatory in cases); one module; no must/when/leafref",
+    "schemas from family S1x (S1 of the tree base + unique, nested choices, mandatory in cases) and the directed families of validgen.FAMILIES "
+    "(same schema language); one module; no must/when/leafref",
     "instances are built through the public API or parsed from XML/JSON: sibling lists in libyang's order, instances of a schema node contiguous",
     "values are given in canonical form (the mutation `bad-value` uses values outside the lexical AND value space)",
     "the specification is stated for the non-operational option sets; under LYD_VALIDATE_OPERATIONAL only the correspondence is checked",
@@ -72,7 +87,17 @@ def features(s):
                     if p.kind == "case" or (p.kind == "container" and p.presence):
                         f.add("unique-default-below-case-or-presence")
                     p = p.parent
+        if n.kind == "leaflist" and n.max > 0 and len(n.dflts) > n.max:
+            f.add("leaflist-more-defaults-than-max")
     return sorted(f)
+
+
+def f320_fixed():
+    """read off the C source: does the schema compiler compare the number of leaf-list defaults with max-elements (fixes/F320.diff)?"""
+    try:
+        return "number of default values" in open(os.path.join(paths.REPO, "src", "schema_compile_node.c")).read()
+    except OSError:
+        return False
 
 
 def classify(component, what, case):
@@ -81,22 +106,37 @@ def classify(component, what, case):
         return "F175"
     if law == "route-path" and case.get("route") in ("xml", "json") and case.get("unlinked"):
         return "F176"
+    if law in ("iff-rejected", "tag") and case.get("impl_kind") == "NoMax" and "leaflist-more-defaults-than-max" in feat:
+        return "F320"
     return None
 
 
-def run(cx):
+def run(cx, nsch=None, nnest=None, nfam=None):
     cx.rule("val: random S1x schemas; instances valid by construction (treegen + unique repair) under the option sets "
             "0/present/no-state/multi-error/operational and combinations, in canonical and in scrambled creation order; each instance "
             "also mutated in every applicable single way (%s) and validated plain, multi-error, operational; non-trivial = distinct "
             "(schema, instance, options)" % ", ".join(vg.MUTATIONS))
     rng = cx.sub_rng("schemas")
-    nsch = cx.n(90, 500)
+    nsch = cx.n(90, 500) if nsch is None else nsch
     per = cx.n(5, 20)
     schemas, cases = [], load_corpus(cx)
-    nnest = cx.n(30, 150)
-    for i in range(nsch + nnest):
-        # the last `nnest` schemas: nested choices next to constrained siblings of the outer case (directed family)
-        s = vg.gen_schema_x(rng, i, max_depth=rng.choice([2, 3, 3])) if i < nsch else vg.gen_schema_nested(rng, i)
+    witness_f320(cx, cases)
+    compiler_guarantee(cx)
+    nnest = cx.n(30, 150) if nnest is None else nnest
+    # directed families (validgen.FAMILIES): `nfam` schemas of each, one template per construct of the full schema language
+    fams = [f for f in vg.FAMILIES if f[0] not in vg.DISABLED_FAMILIES]
+    nfam = cx.n(3, 14) if nfam is None else nfam
+    origin = {}
+    for i in range(nsch + nnest + nfam * len(fams)):
+        # after the random ones, `nnest` schemas: nested choices next to constrained siblings of the outer case (directed family)
+        if i < nsch:
+            s = vg.gen_schema_x(rng, i, max_depth=rng.choice([2, 3, 3]))
+        elif i < nsch + nnest:
+            s = vg.gen_schema_nested(rng, i)
+        else:
+            s = fams[(i - nsch - nnest) % len(fams)][1](rng, i)
+        fam = getattr(s, "family", None)
+        origin[id(s)] = s._origin = "random" if i < nsch else "nested" if fam is None else fam
         schemas.append(s)
         r = cx.sub_rng("inst%d" % i)
         # mostly small sibling lists; every eighth schema gets wide ones (sibling count far above the schema depth)
@@ -109,11 +149,123 @@ def run(cx):
                 m = mu.mutate(t, k)
                 if m is not None:
                     cases.append(Case(s, m[0], k, m[1], r))
+                    # the same mutant without the non-presence containers the mutation emptied: the violated constraint is then
+                    # reached through validation's implicit containers only
+                    pr = vg.prune_np(m[0]) if k in PRUNED else None
+                    if pr is not None:
+                        cases.append(Case(s, pr, k, dict(m[1], pruned=True), r))
+        if fam == "unique-paths":
+            for t, info in vg.directed_unique(r, s, g, ns=cx.n((2, 2, 3, 3, 5), (2, 2, 2, 3, 3, 3, 3, 4, 5, 6, 8))):
+                cases.append(Case(s, t, "directed", dict(info, family=fam), r))
+    distribution(cx, schemas, origin)
     all_schemas = list({id(c.s): c.s for c in cases}.values())
     step = 4000
     for lo in range(0, len(cases), step):
         process(cx, all_schemas, cases[lo:lo + step], lo)
+    classes(cx, origin)
     operations(cx, cases)
+
+
+def witness_f320(cx, cases):
+    """F320 (a leaf-list with more default values than max-elements), replayed on every run.  Unrepaired compiler: the witness is one
+    more case — libyang and the model reject the empty presence container (NoMax on an implicit node), the specification is satisfied,
+    the law `iff` fails and `classify` names the finding.  Repaired compiler (fixes/F320.diff): the module must be refused."""
+    s, t = vg.witness_f320()
+    s._origin = "witness-F320"
+    if not f320_fixed():
+        cx.rule("F320 witness (leaf-list with 2 defaults and max-elements 1 in a presence container, instance = the empty container): "
+                "validated like every other case; the compiler of this source tree does not compare the two numbers")
+        cases.append(Case(s, t, None, None, cx.sub_rng("f320")))
+        return
+    cx.rule("F320 witness: the compiler of this source tree compares the number of leaf-list defaults with max-elements; the module must be refused")
+    r = vc.run_impl(cx, HARNESS, [s], []).get("S0", ["err", "NoReply"])
+    cx.count(("f320", s.name), True, "F320 witness refused by the compiler" if r[:2] == ["err", "BadSchema"] else "F320 witness NOT refused")
+    if r[:2] != ["err", "BadSchema"]:
+        cx.fail(COMP, "the source has the F320 check but the module with more leaf-list defaults than max-elements compiles (%s)" % " ".join(r[:2]),
+                dict(vc.schema_payload(s), law="f320-compile", features=features(s)))
+
+
+def compiler_guarantee(cx):
+    """law `compiler-guarantee`: what the schema hypotheses of the Lean theorems exclude, lys_compile refuses (schema registrations only;
+    the harness answers `err BadSchema` for a module it cannot compile, `ok <n> <summary>` otherwise)"""
+    gs = vg.compiler_guarantee_schemas()
+    cx.rule("compiler-guarantee: %d tiny modules, one per point the schema hypotheses of the C02 theorems (FullSane) exclude, must be refused by "
+            "lys_compile; %d positive controls must compile" % (sum(1 for g in gs if not g[2]), sum(1 for g in gs if g[2])))
+    rep = vc.run_impl(cx, HARNESS, [g[1] for g in gs], [])
+    for i, (what, s, must) in enumerate(gs):
+        r = rep.get("S%d" % i, ["err", "NoReply"])
+        if r[:2] == ["err", "Crash"]:
+            continue
+        ok = (r[0] == "ok") if must else (r[:2] == ["err", "BadSchema"])
+        cx.count(("compiler-guarantee", s.name), True,
+                 ("compiler-guarantee: control accepted" if must else "compiler-guarantee: refused") if ok else "compiler-guarantee: VIOLATED")
+        if not ok:
+            cx.fail(COMP, ("lys_compile refuses a schema the C02 theorems admit: %s (%s)" % (what, " ".join(r[:2]))) if must
+                    else "lys_compile accepts a schema the C02 theorems exclude: %s" % what,
+                    {"law": "compiler-guarantee", "yang": s.yang(), "reply": r[:3]})
+
+
+PRUNED = ("drop-mandatory", "drop-choice", "below-min")
+CLASSES = ["plain", "full-without-unique", "full"]
+
+
+def tclass(s):
+    c = getattr(s, "_tclass", None)
+    if c is None:
+        try:
+            c = vg.theorem_class(s)
+        except Exception:
+            c = "full"
+        try:
+            s._tclass = c
+        except Exception:
+            pass
+    return c
+
+
+def distribution(cx, schemas, origin):
+    """(a) how many of the generated schemas contain each construct of the full schema language"""
+    tot, by = collections.Counter(), collections.Counter()
+    cls = collections.Counter()
+    for s in schemas:
+        by[origin[id(s)]] += 1
+        cls[tclass(s)] += 1
+        for f in vg.schema_constructs(s):
+            tot[f] += 1
+    text = ("schemas: %d generated (%s); theorem class of the schema: %s; schemas containing each construct: %s"
+            % (len(schemas), ", ".join("%s %d" % kv for kv in by.items()), ", ".join("%s %d" % (c, cls[c]) for c in CLASSES),
+               ", ".join("%s %d" % (f, tot[f]) for f in vg.CONSTRUCTS)))
+    cx.rule(text)
+    print("C02 distribution: " + text)
+
+
+def classes(cx, origin):
+    """(b) how many cases (schema, instance, option set) fall into the schema class of each theorem, accepted / rejected by libyang"""
+    d = cx.dist
+    parts = []
+    for c in CLASSES + ["outside (LYD_VALIDATE_OPERATIONAL)"]:
+        parts.append("%s %d valid + %d invalid" % (c, d["class:%s:valid" % c], d["class:%s:invalid" % c]))
+    cum = ["theorem for plain schemas applies to %d" % sum(d["class:plain:" + v] for v in ("valid", "invalid")),
+           "theorem for schemas without unique to %d" % sum(d["class:%s:%s" % (c, v)] for c in CLASSES[:2] for v in ("valid", "invalid")),
+           "theorem for all schemas to %d" % sum(d["class:%s:%s" % (c, v)] for c in CLASSES for v in ("valid", "invalid"))]
+    fam = getattr(cx, "c02_fam", {})
+    ftext = ", ".join("%s %d valid + %d invalid" % (f, fam.get((f, "valid"), 0), fam.get((f, "invalid"), 0))
+                      for f in sorted({k[0] for k in fam}))
+    text = ("cases (schema, instance, option set) by smallest theorem class of the schema (exclusive bins, libyang's verdict): %s; %s; "
+            "cases per schema origin: %s" % ("; ".join(parts), ", ".join(cum), ftext))
+    cx.rule(text)
+    print("C02 distribution: " + text)
+    hy = getattr(cx, "c02_hyp", None)
+    if hy:
+        text = ("hypotheses of the Lean theorems evaluated per case by the model (non-operational option sets): "
+                + ", ".join("%s %d" % kv for kv in sorted(hy.items())))
+        cx.rule(text)
+        print("C02 distribution: " + text)
+    du = getattr(cx, "c02_uniq", None)
+    if du:
+        text = "directed unique instances (entries of the list, shape, verdict): " + ", ".join("%s %d" % kv for kv in sorted(du.items()))
+        cx.rule(text)
+        print("C02 distribution: " + text)
 
 
 def operations(cx, cases):
@@ -127,7 +279,8 @@ def operations(cx, cases):
       (V) the all-state variant the generator computes (validgen.state_variant) against the model's (`opsvariant`), per schema."""
     rng = cx.sub_rng("ops")
     pick = [c for c in cases if getattr(c.s, "yang", None) and not isinstance(c.s, vc.ReplaySchema)
-            and c.kind not in ("state-node", "missing-key") and not any(getattr(n, "when", None) for n in c.s.nodes)]
+            and c.kind not in ("state-node", "missing-key") and not any(getattr(n, "when", None) for n in c.s.nodes)
+            and getattr(c.s, "_origin", None) != "witness-F320"]       # F320 is recorded for datastore validation (law iff)
     rng.shuffle(pick)
     pick = pick[:cx.n(1500, 12000)]
     cx.rule("ops: %d of the instances above (valid and singly mutated) sent as rpc input, rpc output (reply) and notification content, XML "
@@ -247,6 +400,8 @@ def process(cx, schemas, cases, lo):
         lines.append("w%d.%d %s val %s %s %d %s" % (c.k, c.base, COMP, d, x, c.base, tg.tok(c.sh)))
         for o in sorted(set(o & ~(MULTI | OPER) for o in opts_of(c))):
             specl.append("p%d.%d %s spec %s %s %d %s" % (c.k, o, COMP, d, x, o, tg.tok(c.t)))
+            # the hypotheses of the Lean theorems, evaluated by the model on this very case (op `hyp`, LyModel/Valid/Drv.lean)
+            specl.append("h%d.%d %s hyp %s %s %d %s" % (c.k, o, COMP, d, x, o, tg.tok(c.t)))
         if c.kind != "missing-key" or True:
             routel.append("r%d %s routes %s %d %s %s %s" % (c.k, COMP, d, c.base, tg.tok(c.t), tg.hx(vg.render_xml(c.s, c.t)), tg.hx(vg.render_json(c.s, c.t))))
             routel.append("q%d %s routes %s %d %s %s %s" % (c.k, COMP, d, c.base, tg.tok(c.doc_sh), tg.hx(vg.render_xml(c.s, c.doc_sh)), tg.hx(vg.render_json(c.s, c.doc_sh))))
@@ -258,6 +413,29 @@ def process(cx, schemas, cases, lo):
     routes = vc.run_impl(cx, HARNESS, schemas, routel)
     for c in cases:
         eval_case(cx, c, ri, spec, routes)
+
+
+def hyp_count(cx, hy, accepted):
+    """which Lean theorem's hypotheses hold for the case (decidable predicates of Props/C02.lean / Props/C02Full.lean, evaluated by lydrv)"""
+    if not hasattr(cx, "c02_hyp"):
+        cx.c02_hyp = collections.Counter()
+    if hy[0] != "ok":
+        cx.c02_hyp["hyp op failed"] += 1
+        return
+    h = dict(t.split("=") for t in hy[1:])
+    on = lambda *ks: all(h.get(k) == "1" for k in ks)
+    v = "valid" if accepted else "invalid"
+    if on("wf", "plain", "nouniq", "good", "bounds"):
+        cx.c02_hyp["validate_ok_iff_valid (plain): " + v] += 1
+    if on("wf", "full", "uniqok", "fixed", "good", "bounds"):
+        cx.c02_hyp["validate_ok_iff_valid_full: %s%s" % (v, "" if on("nouniq") else " (schema with unique)")] += 1
+        if on("keysfirst", "uniqwf"):
+            cx.c02_hyp["verdict_order_independent: " + v] += 1
+    else:
+        why = [n for k, n in (("wf", "table/tree view"), ("full", "schema not FullSane"), ("uniqok", "unique paths not UniqPathsOk"),
+                              ("fixed", "F180 variant"), ("good", "default-flagged node in the instance (empty non-presence container)"),
+                              ("bounds", "bounds")) if h.get(k) != "1"]
+        cx.c02_hyp["outside validate_ok_iff_valid_full: " + " + ".join(why)] += 1
 
 
 def first_err(reply):
@@ -281,8 +459,18 @@ def eval_case(cx, c, ri, spec, routes):
     # ---- iff / tag / mutation, per non-operational option set
     for o in opts_of(c):
         r = ri.get("v%d.%d" % (c.k, o), ["err", "NoReply"])
+        if r[0] == "ok":
+            # which theorem speaks about this case: the smallest schema class; none under LYD_VALIDATE_OPERATIONAL
+            verdict = "valid" if r[1] == "valid" else "invalid"
+            cx.dist["class:%s:%s" % ("outside (LYD_VALIDATE_OPERATIONAL)" if o & OPER else tclass(c.s), verdict)] += 1
+            if not hasattr(cx, "c02_fam"):
+                cx.c02_fam, cx.c02_uniq = collections.Counter(), collections.Counter()
+            cx.c02_fam[(getattr(c.s, "_origin", "corpus"), verdict)] += 1
+            if c.kind == "directed" and o == c.base:
+                cx.c02_uniq["n=%s %s %s" % (c.info.get("n") if c.info.get("n", 0) < 4 else "4+", c.info.get("shape"), verdict)] += 1
         if r[0] != "ok" or o & OPER:
             continue
+        hyp_count(cx, spec.get("h%d.%d" % (c.k, o & ~(MULTI | OPER)), ["err", "NoReply"]), r[1] == "valid")
         sp = spec.get("p%d.%d" % (c.k, o & ~(MULTI | OPER)), ["err", "NoReply"])
         if sp[0] != "ok":
             cx.notes.append("spec op failed: %s" % " ".join(sp[:3]))
@@ -302,13 +490,26 @@ def eval_case(cx, c, ri, spec, routes):
                         payload(c, "tag", opts=o, impl_kind=k, spec=sorted(viol)))
             elif tag != APPTAG.get(k):
                 cx.fail(COMP, "error-app-tag %s on a %s error (RFC 7950: %s)" % (tag, k, APPTAG.get(k)), payload(c, "apptag", opts=o, impl_kind=k))
-            if o == c.base and c.kind is not None and viol == {vg.EXPECT[c.kind][0]}:
+            if o == c.base and c.kind in vg.EXPECT and viol == {vg.EXPECT[c.kind][0]}:
                 cx.dist["mutation-caught:" + c.kind] += 1 if k == vg.EXPECT[c.kind][0] else 0
+            # ---- multi-set (theorem multi_error_set_exact): under LYD_VALIDATE_MULTI_ERROR, for a buildable instance in which no choice
+            # has data of two cases, the families libyang reports are exactly the violated ones
+            if o & MULTI and r[1] == "invalid" and viol:
+                got = set(vc.dec_err(t)[0] for t in r[3:])
+                if "DupCase" in viol:
+                    cx.dist["multi-set: DupCase violated (one case validated only), reported %s violated" % ("=" if got == viol else "<")] += 1
+                elif got != viol:
+                    cx.fail(COMP, "under MULTI_ERROR libyang reports %s, the instance violates %s" % (",".join(sorted(got)), ",".join(sorted(viol))),
+                            payload(c, "multi-set", opts=o, impl_kinds=sorted(got), spec=sorted(viol)))
+                else:
+                    cx.dist["multi-set: reported families = violated families"] += 1
         if o == c.base:
             if c.kind is None and not viol:
                 cx.dist["valid-by-construction:" + ("accepted" if accepted else "REJECTED")] += 1
             elif c.kind is None:
                 cx.dist["generator: valid-by-construction instance violates " + ",".join(sorted(viol))] += 1
+            elif c.kind == "directed":
+                cx.dist["directed:%s:%s" % (c.info.get("family"), "valid" if not viol else "invalid")] += 1
             elif not viol:
                 cx.dist["generator: mutation %s left the instance valid" % c.kind] += 1
     # ---- order independence of the API route
